@@ -429,15 +429,33 @@ Proof.
   pose proof (BR hw) as B1. pose proof (BR ks) as B2. pose proof (BR tb) as B3. pose proof (BR vb) as B4.
   repeat split; try lia.
   - destruct hw; cbn [Z.b2z] in *;
-      match goal with |- negb (?e =? 0) = _ => destruct (Z.eqb_spec e 0) as [Q|Q]; simpl; try reflexivity; exfalso; lia end.
+      match goal with |- negb (?e =? 0) = _ => destruct (Z.eqb_spec e 0) as [Q|Q]; cbn [negb]; try reflexivity; exfalso; lia end.
   - destruct ks; cbn [Z.b2z] in *;
-      match goal with |- negb (?e =? 0) = _ => destruct (Z.eqb_spec e 0) as [Q|Q]; simpl; try reflexivity; exfalso; lia end.
+      match goal with |- negb (?e =? 0) = _ => destruct (Z.eqb_spec e 0) as [Q|Q]; cbn [negb]; try reflexivity; exfalso; lia end.
   - destruct tb; cbn [Z.b2z] in *;
-      match goal with |- negb (?e =? 0) = _ => destruct (Z.eqb_spec e 0) as [Q|Q]; simpl; try reflexivity; exfalso; lia end.
+      match goal with |- negb (?e =? 0) = _ => destruct (Z.eqb_spec e 0) as [Q|Q]; cbn [negb]; try reflexivity; exfalso; lia end.
   - destruct vb eqn:Vq; cbn [Z.b2z] in *.
-    + match goal with |- (if negb (?e =? 0) then _ else _) = _ => destruct (Z.eqb_spec e 0) as [Q|Q]; simpl end;
+    + match goal with |- (if negb (?e =? 0) then _ else _) = _ => destruct (Z.eqb_spec e 0) as [Q|Q]; cbn [negb] end;
         [exfalso; lia | lia].
     + assert (V0 : vv = 0).
       { destruct (Z.eq_dec vv 0) as [|Ne]; [assumption|]. apply Vb in Ne. discriminate. }
-      match goal with |- (if negb (?e =? 0) then _ else _) = _ => destruct (Z.eqb_spec e 0) as [Q|Q]; simpl end; lia.
+      match goal with |- (if negb (?e =? 0) then _ else _) = _ => destruct (Z.eqb_spec e 0) as [Q|Q]; cbn [negb] end; lia.
+Qed.
+
+(* ------------------------------------------------------------------ sweeps over the generated database *)
+Lemma tables_agree_with_source : mixin_table_ok = true /\ resolution_ok = true /\ consts_ok = true.
+Proof. repeat split; vm_compute; reflexivity. Qed.
+
+(* Python refuses a class with a duplicate base; so every real class has a duplicate-free mixin list *)
+Fixpoint nodupb (l : list mixin) : bool :=
+  match l with [] => true | m :: t => negb (existsb (mixin_eqb m) t) && nodupb t end.
+
+(* manifest: the test `flags and DIGEST_PRESENT_FLAG and digest_hash_algo is not None` (logical and) that finalize uses
+   equals the bitwise test `flags & DIGEST_PRESENT_FLAG` used by mix_len, for every manifest the constructor can build *)
+Lemma manifest_flags_logical_is_bitwise dg :
+  0 <= dg <= 3 ->
+  (negb (manifest_flags dg =? 0) && negb (dg =? 0)) = negb (Z.land (manifest_flags dg) G_MANIFEST_DIGEST_PRESENT_FLAG =? 0).
+Proof.
+  intros H. assert (D : dg = 0 \/ dg = 1 \/ dg = 2 \/ dg = 3) by lia.
+  destruct D as [->|[->|[->| ->]]]; vm_compute; reflexivity.
 Qed.
